@@ -314,13 +314,26 @@ func (c *ClientConn) Receive(reader io.Reader) error {
 // If an unprepared error is encountered it attempts to prepare the query on the connection and re-execute the original
 // request.
 func (c *ClientConn) maybePrepareAndExecute(request Request, raw *frame.RawFrame) bool {
-	code, err := readInt(raw.Body)
-	if err != nil {
-		c.logger.Error("failed to read `code` in error response", zap.Error(err))
-		return false
+	isUnprepared := false
+	if raw.Header.Flags != 0 {
+		// The error code is not at the start of the raw body if it is compressed or prefixed by a tracing ID, warnings
+		// or a custom payload; the frame has to be decoded to tell.
+		if frm, err := c.codec.ConvertFromRawFrame(raw); err != nil {
+			c.logger.Error("failed to decode error response", zap.Error(err))
+			return false
+		} else if _, ok := frm.Body.Message.(*message.Unprepared); ok {
+			isUnprepared = true
+		}
+	} else {
+		code, err := readInt(raw.Body)
+		if err != nil {
+			c.logger.Error("failed to read `code` in error response", zap.Error(err))
+			return false
+		}
+		isUnprepared = primitive.ErrorCode(code) == primitive.ErrorCodeUnprepared
 	}
 
-	if primitive.ErrorCode(code) == primitive.ErrorCodeUnprepared {
+	if isUnprepared {
 		frm, err := c.codec.ConvertFromRawFrame(raw)
 		if err != nil {
 			c.logger.Error("failed to decode unprepared error response", zap.Error(err))
